@@ -20,6 +20,7 @@ def formOfJson (j : Json) : Except String Form := do
   | "early" => pure (.early (getStrD j "msg" ""))
   | "late" => pure (.late (getStrD j "msg" ""))
   | "unencodable" => pure (.unencodable (getStrD j "msg" ""))
+  | "diskfault" => pure (.diskFault (getStrD j "msg" ""))
   | "ok" => pure (.ok (getStrD j "ugly" "") (getStrD j "pretty" "") (optStr j "itemsets") (strsD j "preW") (strsD j "postW"))
   | o => throw s!"form kind {o}"
 
